@@ -12,8 +12,8 @@ REPO_SRCS = None
 # every realloc of the library goes through vec_realloc() in harness/vec.c (allocation
 # policy), which forwards to the interposer of harness/alloc.c (ledger + request log)
 CFLAGS = ["-Drealloc=vec_realloc"]
-LEAN_TARGETS = ["Cstl.Vec.Props", "Cstl.Vec.PropsRun", "m_vec"]
-IMPORTS = ["Cstl.Vec.Props", "Cstl.Vec.PropsRun"]
+LEAN_TARGETS = ["Cstl.Vec.Props", "Cstl.Vec.PropsRun", "Cstl.Vec.PropsStrRun", "m_vec"]
+IMPORTS = ["Cstl.Vec.Props", "Cstl.Vec.PropsRun", "Cstl.Vec.PropsStrRun"]
 
 THEOREMS = {
     "C09": [
@@ -40,7 +40,40 @@ THEOREMS = {
         "Cstl.Vec.scratch_in_block",
         "Cstl.Vec.pinned_breaks_inv",
     ],
-    "C10": [],
+    "C10": [
+        "Cstl.Vec.run_refines",
+        "Cstl.Vec.run_refines_from_init",
+        "Cstl.Vec.sstep_refines",
+        "Cstl.Vec.str_nul_terminated",
+        "Cstl.Vec.strResize_refines",
+        "Cstl.Vec.strResize_ok_iff",
+        "Cstl.Vec.strResize_error",
+        "Cstl.Vec.strResize0_ok",
+        "Cstl.Vec.strResize0_error",
+        "Cstl.Vec.insertCh_refines",
+        "Cstl.Vec.insertStrN_refines",
+        "Cstl.Vec.insertCh_error",
+        "Cstl.Vec.insertStrN_error",
+        "Cstl.Vec.insert_abort_iff",
+        "Cstl.Vec.prepInsert_ok_iff",
+        "Cstl.Vec.count_truncated",
+        "Cstl.Vec.erase_refines",
+        "Cstl.Vec.substr_refines",
+        "Cstl.Vec.strAt_spec",
+        "Cstl.Vec.strReserve_rep",
+        "Cstl.Vec.strClear_rep",
+        "Cstl.Vec.cstrFrom_rep",
+        "Cstl.Vec.strchrM_spec",
+        "Cstl.Vec.strstrM_spec",
+        "Cstl.Vec.strcmpM_eq_zero_iff",
+        "Cstl.Vec.strcmpM_first_diff",
+        "Cstl.Vec.findCh_eq_libc",
+        "Cstl.Vec.findStr_eq_libc",
+        "Cstl.Vec.compareStr_eq_libc",
+        "Cstl.Vec.growth_abort_no_write",
+        "Cstl.Vec.pos_abort_iff",
+        "Cstl.Vec.pinned_clamp_wraps",
+    ],
 }
 
 LIMIT = 65536
@@ -877,8 +910,9 @@ def canon_state(line):
     return re.sub(r" b=\d+:", " b=#:", st)
 
 
-def string_alphabet(wd, maxlen, chars=(97, 98)):
-    """operations enabled in a state (read from the model's dump), strings of at most `maxlen`"""
+def string_alphabet(wd, maxlen, chars=(97, 98), observers=True):
+    """operations enabled in a state (read from the model's dump), strings of at most `maxlen`;
+    observers=False leaves out the state-preserving calls (str/cmp/at/find)"""
     a, b = wd + "0", wd + "1"
 
     def alpha(last):
@@ -916,6 +950,8 @@ def string_alphabet(wd, maxlen, chars=(97, 98)):
             ops.append("setstr %s %s" % (x, utok(list(chars[:min(2, maxlen)]))))
             ops.append("clear %s" % x)
             ops.append("sreserve %s %d" % (x, maxlen))
+            if not observers:
+                continue
             # observers (state unchanged): results are compared and judged by the oracle
             ops.append("str %s" % x)
             if not unterm:
@@ -932,7 +968,10 @@ def string_alphabet(wd, maxlen, chars=(97, 98)):
     return alpha
 
 
-def vector_alphabet(maxn):
+def vector_alphabet(maxn, maxn2=None):
+    """operations enabled in a state; v0 up to `maxn` elements, v1 up to `maxn2`"""
+    lim = {"v0": maxn, "v1": maxn if maxn2 is None else maxn2}
+
     def alpha(last):
         ns = {"v0": 0, "v1": 0}
         if last:
@@ -941,15 +980,16 @@ def vector_alphabet(maxn):
                 ns = {k: p[1][k].n for k in ns}
         ops = []
         for x in ("v0", "v1"):
-            for k in range(0, maxn + 1):
+            for k in range(0, lim[x] + 1):
                 ops.append("resize %s %d" % (x, k))
-            for k in range(1, maxn + 2):
+            for k in range(1, lim[x] + 2):
                 ops.append("reserve %s %d" % (x, k))
             ops += ["shrink %s" % x, "clear %s" % x, "rev %s" % x, "sort %s" % x]
             for i in range(0, ns[x] + 1):
                 ops.append("at %s %d" % (x, i))
                 ops.append("set %s %d %d" % (x, i, 7 + i % 2))
-        ops.append("swap v0 v1")
+        if max(ns.values()) <= min(lim.values()):
+            ops.append("swap v0 v1")
         return ops
     return alpha
 
@@ -1100,3 +1140,36 @@ def fault_scripts():
             out.append(["plan " + "1" * k + "0"] + b)
             out.append(["plan " + "1" * k + "0000000"] + b)
     return out
+
+
+def c16_templates(tier):
+    """fault-enumeration templates for tools/props/C16.py.  `("plan {}", n)` precedes the
+    operation that makes n realloc requests (set_str on an empty string makes two); every
+    allocation-bearing step asks for more than any capacity reachable before it, so it makes
+    its request(s) whatever failed earlier.  A refused reserve / shrink_to_fit is a quiet no-op
+    (the script continues on the old storage), a refused growth in resize / insert / append /
+    substr aborts (the script ends there: `STOP abort`, accepted by the oracle only when the
+    growth really was unsatisfiable).  The string API has no shrink_to_fit."""
+    P = ("plan {}", 1)
+    P2 = ("plan {}", 2)
+    t1 = ["init v0 4 3", P, "reserve v0 4", P, "reserve v0 8", "resize v0 2", "set v0 1 7", P, "resize v0 12",
+          "at v0 1", "resize v0 5", P, "shrink v0", "at v0 1", P, "reserve v0 20", "rev v0", "sort v0", "at v0 4",
+          "clear v0", P, "resize v0 1", "at v0 0", "plan -", "resize v0 3", "clear v0"]
+    t2 = ["init v1 16 0", P, "resize v1 2", "set v1 0 5", P, "reserve v1 6", "swap v0 v1", P, "resize v0 9", "at v0 0",
+          "resize v0 1", P, "shrink v0", "swap v0 v1", "at v1 0", P, "resize v1 3", "plan -", "reserve v1 M",
+          "clear v1", "clear v0"]
+    strs = []
+    for wd in ("s", "w"):
+        a, b = wd + "0", wd + "1"
+        strs.append([P2, "setstr %s 97,98,99" % a, P, "sreserve %s 10" % a, P, "appch %s 9 120" % a, "str %s" % a,
+                     P, "insch %s 1 20 121" % a, P, "substr %s 2 5 %s" % (a, b), P, "app %s %s" % (b, a),
+                     "erase %s 0 M" % a, "str %s" % a, "str %s" % b, P, "sresize %s 80" % b, "cmp %s %s" % (a, b),
+                     "plan -", "appn %s 100,101 2" % a, "findch %s 101 0" % a, "clear %s" % a, "clear %s" % b])
+    thms = ["Cstl.Vec.reserve_fail_noop", "Cstl.Vec.reserve_commit_or_noop", "Cstl.Vec.resize_fail_abort",
+            "Cstl.Vec.resize_abort_iff", "Cstl.Vec.run_inv", "Cstl.Vec.strReserve_rep",
+            "Cstl.Vec.growth_abort_no_write", "Cstl.Vec.insert_abort_iff", "Cstl.Vec.substr_refines",
+            "Cstl.Vec.run_refines"]
+
+    def prop_of(sc):
+        return "C09" if any(len(op.split()) > 1 and op.split()[1][0] == "v" for op in sc) else "C10"
+    return [t1, t2] + strs, prop_of, thms
